@@ -328,6 +328,9 @@ def generate(name, expanded_src=None):
                 # visibility normalised to `pub` (same transformation as for functions)
                 txt = txt.replace("pub(crate)", "pub")
                 txt = re.sub(r'^(\s*)const ', r'\1pub const ', txt)
+                if len(parts) > 3 and 'opaque' in parts[3:]:
+                    # the initialiser calls an exec fn (compile-time evaluation): keep the text, make the value opaque to Verus
+                    txt = "#[verifier::external_body] " + rsx.MARK + "\n" + txt.lstrip()
                 if len(parts) > 3 and 'limbs' in parts[3:]:
                     # const initialised by w64be/w64le with literal limbs -> tuple-struct literal
                     # (w64be/w64le are proved in the same unit to build exactly that array)
